@@ -33,3 +33,14 @@ Definition spec_Of_any_ok (ps : list Z) (opt : option Z) (o : option (list Z)) :
   | Some r => of_fits ps opt && spec_Of_ok ps opt r
   | None => negb (of_fits ps opt)
   end.
+
+(** * OfMany on its whole non-panic domain *)
+(** non-negative sizes, every segment ascending (duplicates allowed) and non-negative, positions at or past
+    the segment's size allowed in ANY segment (so the shifted concatenation need not be ascending), and the real
+    code does not panic: every shifted position lies inside the bits allocated from the sum of the sizes and the
+    last shifted position.  There OfMany ORs bits, so the result is the SET of shifted positions — what a Builder
+    fed the same segments holds. *)
+Definition ofmany_dom2 (subs : list (list Z)) (sizes : list Z) : bool :=
+  (length subs =? length sizes)%nat && nonnegb sizes &&
+  forallb (fun ps => sortedb ps && nonnegb ps) subs &&
+  of_fits (shifted subs sizes 0) (Some (total sizes)).
